@@ -220,6 +220,11 @@ def tree(draw, P, max_files=8, modes=None, single=None, min_files=1, cli_safe=Fa
                 if files[j].get("hardlink") is None:
                     links.append({"path": [lname], "target": "/".join(files[j]["path"])})
                     files.append({"path": [lname], "size": files[j]["size"], "mode": files[j]["mode"], "seed": files[j]["seed"], "via": j})
+    if symlinks and draw(st.sampled_from([True] + [False] * 11)):
+        # a broken link left in the folder: not a file, not a directory - it contributes nothing, and must not stop anything
+        dn = "broken-link"
+        if not any(f["path"][0] == dn for f in files):
+            links.append({"path": [dn], "target": "no-such-target"})
     if len(files) == 1 and files[0]["path"] == [name]:
         # BEP 52 cannot tell "directory x holding only file x" from "single file x": not generated
         files[0]["path"] = [name + "~f"]
